@@ -27,6 +27,15 @@ A *case* is a structural description, never source text::
                  "fors"  {% for i in LV %}({% block x scoped %}<xL{{ i }}>{% endblock %}){% endfor %}
                  "foru"  same without `scoped` (the body must NOT see the loop variable)
                  "req"   {% block x required %} {# r #} {% endblock %}   (root only)
+                 "forif"   like "fors" but the scoped block sits inside {% if i %} inside the loop body
+                 "forwith" like "fors" but inside {% with w = i %} inside the loop body
+                 "for2"    {% for o in ["m","n"] %}{{ loop.index }}<forif loop>{% endfor %}  (outer loop uses `loop`)
+                 "loop"    {% block x %}<xL{{ i }}#{{ loop.index }}/{{ loop.length }}>{% endblock %}  (sees the loop
+                           of a scoped block tag placed in a loop; otherwise `loop` is undefined -> UndefinedError)
+                 "selfsuper" ... <xL{{ i }}:{{ self.y() }}:{{ super() }}>        both in one body
+                 "selfss"    ... <xL{{ i }}:{{ self.y() }}:{{ super.super() }}>
+                 (the last six kinds are only used by the small extra plans, see BOUNDS; plan["kinds"] may be a
+                 dict {"root": kinds, "child": kinds} instead of "full"/"reduced")
         selfcall None, or a block name: the template's layout ends with ~{{ self.<name>() }}
     flags  = ((f, g), ...) one pair per level; entries not used by the level's ext form are None
 
@@ -71,7 +80,13 @@ KINDS_CHILD = ("-", "text", "super", "ss", "self", "nest", "fors", "foru")
 KINDS_ROOT = KINDS_CHILD + ("req",)
 KINDS_REDUCED = ("-", "super", "nest", "fors")
 KINDS_REDUCED_ROOT = KINDS_REDUCED + ("req",)
+KINDS_LOOP = {"root": ("text", "fors", "foru", "forif", "forwith", "for2"), "child": ("-", "text", "super", "loop")}
+KINDS_LOOP2 = {"root": ("text", "nest", "forif", "forwith", "for2"), "child": ("-", "text", "loop")}
+KINDS_BOTH = {"root": ("-", "text", "self"), "child": ("-", "text", "super", "selfsuper", "selfss")}
+KINDS_BOTH3 = {"root": ("-", "text", "self"), "child": ("-", "text", "selfsuper", "selfss")}
+FOR_KINDS = ("fors", "foru", "forif", "forwith", "for2")
 LOOP_VALUES = (("p", "q"), ("r", "s"), ("t", "u"), ("v", "w"))
+OUTER_VALUES = ("m", "n")
 ALT = "alt"
 RECURSION = ("skip", "recursion")
 
@@ -101,7 +116,7 @@ def level_ok(names, kinds, root):
     for i, k in enumerate(kinds):
         if k == "req" and not root:
             return False
-        if k in ("nest", "self") and n == 1:
+        if k in ("nest", "self", "selfsuper", "selfss") and n == 1:
             return False
         if k == "nest":
             if kinds[(i + 1) % n] == "-":
@@ -152,6 +167,13 @@ BOUNDS = {
         {"depth": 2, "names": ("a", "b"), "kinds": "full", "forms": ("lit",), "selfcall": "names"},
         {"depth": 3, "names": ("a",), "kinds": "full", "forms": EXT_FORMS, "selfcall": "none"},
         {"depth": 3, "names": ("a",), "kinds": "full", "forms": ("lit",), "selfcall": "names"},
+        # small extra plans: scoped blocks that are not direct children of the loop body x overrides
+        # using `loop`; block bodies using self.y() and super() together
+        {"depth": 2, "names": ("a",), "kinds": KINDS_LOOP, "forms": EXT_FORMS, "selfcall": "none"},
+        {"depth": 3, "names": ("a",), "kinds": KINDS_LOOP, "forms": ("lit",), "selfcall": "none"},
+        {"depth": 2, "names": ("a", "b"), "kinds": KINDS_LOOP2, "forms": ("lit",), "selfcall": "none"},
+        {"depth": 2, "names": ("a", "b"), "kinds": KINDS_BOTH, "forms": ("lit", "if"), "selfcall": "none"},
+        {"depth": 3, "names": ("a", "b"), "kinds": KINDS_BOTH3, "forms": ("lit",), "selfcall": "none"},
     ],
     "thorough": [
         {"depth": 1, "names": ("a", "b", "c"), "kinds": "full", "forms": EXT_FORMS, "selfcall": "all"},
@@ -161,12 +183,21 @@ BOUNDS = {
         {"depth": 3, "names": ("a", "b"), "kinds": "full", "forms": ("lit",), "selfcall": "none"},
         {"depth": 3, "names": ("a", "b"), "kinds": "reduced", "forms": EXT_FORMS, "selfcall": "none"},
         {"depth": 4, "names": ("a",), "kinds": "full", "forms": EXT_FORMS, "selfcall": "none"},
+        # small extra plans: scoped blocks that are not direct children of the loop body x overrides
+        # using `loop`; block bodies using self.y() and super() together
+        {"depth": 2, "names": ("a",), "kinds": KINDS_LOOP, "forms": EXT_FORMS, "selfcall": "none"},
+        {"depth": 3, "names": ("a",), "kinds": KINDS_LOOP, "forms": EXT_FORMS, "selfcall": "none"},
+        {"depth": 2, "names": ("a", "b"), "kinds": KINDS_LOOP2, "forms": ("lit",), "selfcall": "none"},
+        {"depth": 2, "names": ("a", "b"), "kinds": KINDS_BOTH, "forms": ("lit", "if"), "selfcall": "none"},
+        {"depth": 3, "names": ("a", "b"), "kinds": KINDS_BOTH3, "forms": ("lit",), "selfcall": "none"},
     ],
 }
 
 
 def _level_kinds(names, profile, root):
-    if profile == "full":
+    if isinstance(profile, dict):
+        ks = tuple(profile["root" if root else "child"])
+    elif profile == "full":
         ks = KINDS_ROOT if root else KINDS_CHILD
     elif profile == "reduced":
         ks = KINDS_REDUCED_ROOT if root else KINDS_REDUCED
@@ -275,6 +306,22 @@ def _block_src(names, kinds, lv, x):
     if k in ("fors", "foru"):
         sc = " scoped" if k == "fors" else ""
         return (f"{{% for i in {_loop_lit(lv)} %}}({{% block {x}{sc} %}}{tag}>{{% endblock %}}){{% endfor %}}")
+    if k in ("forif", "for2"):
+        inner = (f"{{% for i in {_loop_lit(lv)} %}}({{% if i %}}{{% block {x} scoped %}}{tag}>{{% endblock %}}"
+                 f"{{% endif %}}){{% endfor %}}")
+        if k == "forif":
+            return inner
+        outer = "[" + ", ".join(f'"{v}"' for v in OUTER_VALUES) + "]"
+        return f"{{% for o in {outer} %}}{{{{ loop.index }}}}{inner}{{% endfor %}}"
+    if k == "forwith":
+        return (f"{{% for i in {_loop_lit(lv)} %}}({{% with w = i %}}{{% block {x} scoped %}}{tag}>{{% endblock %}}"
+                f"{{% endwith %}}){{% endfor %}}")
+    if k == "loop":
+        return f"{{% block {x} %}}{tag}#{{{{ loop.index }}}}/{{{{ loop.length }}}}>{{% endblock %}}"
+    if k == "selfsuper":
+        return f"{{% block {x} %}}{tag}:{{{{ self.{_next(names, x)}() }}}}:{{{{ super() }}}}>{{% endblock %}}"
+    if k == "selfss":
+        return f"{{% block {x} %}}{tag}:{{{{ self.{_next(names, x)}() }}}}:{{{{ super.super() }}}}>{{% endblock %}}"
     if k == "req":
         return f"{{% block {x} required %}} {{# r #}} {{% endblock %}}"
     raise ValueError(k)
@@ -466,7 +513,7 @@ class _Resolver:
         names = self.lnames(lid)
         kinds = self.level(lid)[1]
         for x in toplevel_blocks(names, kinds):
-            if self.kind(lid, x) in ("fors", "foru"):
+            if self.kind(lid, x) in FOR_KINDS:
                 self.placeholder(lid, x, {}, text=False)
 
     def layout(self, lid):
@@ -489,17 +536,24 @@ class _Resolver:
     def placeholder(self, lid, x, scope, text=True):
         """the block tag of x as written in template lid, reached with variable scope `scope`."""
         k = self.kind(lid, x)
-        if k in ("fors", "foru"):
-            for v in LOOP_VALUES[lid]:
-                if text:
-                    self.out.append("(")
-                # docs "Block Nesting and Scope": only a scoped block sees the loop variable.
-                # CALIBRATED: an unscoped block tag passes the scope it was reached with on unchanged
-                # (it hides the enclosing template's local variables, it does not strip what an
-                # enclosing scoped block already put into the context).
-                self.block(x, 0, dict(scope, i=v) if k == "fors" else scope)
-                if text:
-                    self.out.append(")")
+        if k in FOR_KINDS:
+            # "for2": an outer loop that prints its own loop.index around the inner loop
+            for on in (range(1, len(OUTER_VALUES) + 1) if k == "for2" else (None,)):
+                if on is not None and text:
+                    self.out.append(str(on))
+                vals = LOOP_VALUES[lid]
+                for n, v in enumerate(vals, 1):
+                    if text:
+                        self.out.append("(")
+                    # docs "Block Nesting and Scope": only a scoped block sees the variables of the
+                    # enclosing loop -- the loop variable and (docs "For") the special `loop` variable of
+                    # THAT loop, wherever in the loop body the block tag sits (directly, inside if / with).
+                    # CALIBRATED: an unscoped block tag passes the scope it was reached with on unchanged
+                    # (it hides the enclosing template's local variables, it does not strip what an
+                    # enclosing scoped block already put into the context).
+                    self.block(x, 0, scope if k == "foru" else dict(scope, i=v, loop=(n, len(vals))))
+                    if text:
+                        self.out.append(")")
             return
         if k == "req":
             st = self.stacks[x]
@@ -538,6 +592,19 @@ class _Resolver:
             elif k == "nest":
                 self.out.append(":")
                 self.placeholder(lid, _next(names, x), scope)
+            elif k == "loop":
+                self.out.append("#")
+                if "loop" not in scope:
+                    raise _Raise("UndefinedError")  # attribute of an undefined name
+                self.out.append("%d/%d" % scope["loop"])
+            elif k in ("selfsuper", "selfss"):
+                self.out.append(":")
+                self.call_self(_next(names, x), scope)
+                self.out.append(":")
+                skip = 1 if k == "selfsuper" else 2
+                if idx + skip >= len(st):
+                    raise _Raise("UndefinedError")
+                self.block(x, idx + skip, scope)
             self.out.append(">")
         self.depth -= 1
 
